@@ -10,6 +10,13 @@ import (
 // c18.go, c20codes.go). The evidence of a property lists the note of every
 // shared rule that produced an obligation in that run.
 var sharedRuleNotes = map[string]string{
+	"registered-claims-win":             "claim rendering (JWTClaims.ToMap / IDTokenClaims.ToMap): every registered claim is written after the free-form extras were copied in, so an extra can never replace it",
+	"collaborators-wired":               "compose factories assign every interface-typed field that a method of the handler they return invokes",
+	"responsible-for-exactly-one-grant": "every grant-type based CanHandleTokenEndpointRequest answers true only under ExactOne(grant types, its grant)",
+	"granted-before-mint":               "no scope or audience is granted on a request after a token was generated from it",
+	"one-transport":                     "the credentials handed to verification are the Basic-header pair or the body pair, never a mixture",
+	"storage-text-in-debug-only":        "no hint or description of a returned error is built from the error a storage call returned",
+	"whitelist-covers-reader":           "the whitelist the OpenID Connect session is stored with keeps every form key GenerateIDToken reads",
 	"registration-getter":               "reference client types answer registration getters with the field of that name; a default only where documented and only for an empty registration",
 	"credentials-from-body":             "token, device-authorization and revocation endpoints hand AuthenticateClient r.PostForm (RFC 6749 2.3.1: never the URL query); the pushed-authorization endpoint is the named exception",
 	"cache-keyed-by-location":           "the JWKS fetcher reads and writes its cache under one key containing the whole jwks_uri, and fetches that URI",
